@@ -1,2 +1,38 @@
-Require Import Verif.Model.Base Verif.Model.Mode Verif.Corr.Enc.
-Definition ok (isprint : Z -> bool) (c : ecase) : bool := ok_mode ShJSON isprint c.
+(* Correspondence evaluator of C04.  Three checks per record the implementation emitted:
+   1. model == implementation, byte for byte (Enc.ok_mode);
+   2. the SPECIFICATION side on the observed bytes: the record must lie in the domain of the
+      theorems (a record outside it would mean the hypotheses do not describe real inputs),
+      and then the observed line minus its newline must parse - with the fuel of
+      C04_roundtrip - to exactly json_of, with nothing left, and contain no control byte
+      (an instance of C04_roundtrip / C04_one_line evaluated on the implementation's bytes);
+   3. ([okj]) the Coq parser against encoding/json: the harness attaches the ordered tree
+      encoding/json read from the same line (None = it rejected the line); parse_json must
+      accept exactly when encoding/json does and deliver the same tree. *)
+Require Import Verif.Model.Base Verif.Model.Mode Verif.Model.Attrs Verif.Model.Encode Verif.Model.Json Verif.Corr.Enc.
+
+Definition res_eqb (a : option (json * bytes)) (j : json) : bool :=
+  match a with
+  | Some (v, []) => json_eqb v j
+  | _ => false
+  end.
+
+Definition body_of (c : ecase) : bytes := removelast (k_observed c).
+
+Definition spec_ok (c : ecase) : bool :=
+  let cfg := cfg_of c in
+  dom_cfg_b cfg && dom_attrs_b (k_attrs c) &&
+  (if blank_print cfg (k_msg c) then bytes_eqb (k_observed c) [x0a]
+   else res_eqb (parse_json (rec_depth cfg (k_attrs c) + 2) (body_of c)) (json_of enc_registry cfg (k_msg c) (k_attrs c))
+        && byte_eqb (last (k_observed c) x00) x0a
+        && forallb (fun b => 32 <=? bz b) (body_of c)).
+
+Definition ok (isprint : Z -> bool) (c : ecase) : bool := ok_mode ShJSON isprint c && spec_ok c.
+
+(* generous fuel: the generator nests groups <= 8 deep *)
+Definition go_fuel : nat := 64.
+Definition go_ok (c : ecase) (gj : option json) : bool :=
+  match gj with
+  | Some j => res_eqb (parse_json go_fuel (body_of c)) j
+  | None => match parse_json go_fuel (body_of c) with Some (_, []) => false | _ => true end
+  end.
+Definition okj (isprint : Z -> bool) (x : ecase * option json) : bool := ok isprint (fst x) && go_ok (fst x) (snd x).
